@@ -45,6 +45,7 @@ class Unit:
         self.trusted = []       # scanned assumptions
         self.generated = None
         self.twins = None
+        self.audits = []
 
     def src(self, rel):
         if rel not in self.sources:
@@ -56,7 +57,7 @@ class Unit:
 
     # --------------------------------------------------------------------------------
     def generate(self):
-        lines = open(self.tmpl_path, encoding='utf-8').read().split('\n')
+        lines = self._conditionals(open(self.tmpl_path, encoding='utf-8').read().split('\n'))
         out = []          # list of text chunks
         twins_out = []    # same, with vacuity twins
         i = 0
@@ -134,6 +135,38 @@ class Unit:
         self.twins = ''.join(twins_out)
         self._scan_trusted()
         return self.generated
+
+    def _body_contains(self, rel, path, needle):
+        s = self.src(rel)
+        f = s.find_fn(path.replace('~', ' '))
+        body = s.text[s.tok(f['body_open'])[3]:s.tok(f['body_close'])[2]]
+        return (' ' + normalise(needle) + ' ') in (' ' + normalise(body) + ' ')
+
+    def _conditionals(self, lines):
+        """//@when <file> <fn> contains <tokens> ... //@endwhen   (also //@unless)
+           //@demand <file> <fn> contains <tokens>   -> UNDECIDED when absent (call-site audit, not a proof)
+           blocks are kept/dropped depending on the *current* source text; every decision is recorded."""
+        out = []
+        keep = [True]
+        self.audits = []
+        for ln in lines:
+            m = re.match(r'\s*//@(when|unless|demand)\s+(\S+)\s+(\S+)\s+contains\s+(.*)$', ln)
+            if m:
+                kind, rel, path, needle = m.groups()
+                has = self._body_contains(rel, path, needle.strip())
+                self.audits.append(dict(kind=kind, file=rel, fn=path, needle=needle.strip(), found=has))
+                if kind == 'demand':
+                    if keep[-1] and not has:
+                        raise ExtractError('anchor drift: call-site audit: body of %s no longer contains `%s`' % (path, needle.strip()))
+                    continue
+                keep.append(keep[-1] and (has if kind == 'when' else not has))
+                continue
+            if re.match(r'\s*//@(endwhen|endunless)\b', ln):
+                keep.pop()
+                continue
+            if keep[-1]:
+                out.append(ln)
+        return out
 
     def _emit_fn(self, rel, path, allowed, sig_text, sections, out, twins_out):
         s = self.src(rel)
